@@ -852,6 +852,8 @@ class Explorer:
         self.solver = None
         # statistics
         self.n_sat = self.n_unsat = self.n_unknown = 0
+        self.n_cached = 0
+        self.qcache = {}
         self.solver_time = 0.0
         self.paths_done = 0
         self.paths_aborted = 0
@@ -974,18 +976,31 @@ class Explorer:
                         changed = True
         return out
 
-    def _check(self, assumptions):
+    def _check(self, assumptions, need_model=False):
+        """satisfiability of the conjunction; results are cached per set of (hash-consed) terms"""
+        key = None
+        if not need_model:
+            key = frozenset(a.get_id() for a in assumptions)
+            hit = self.qcache.get(key)
+            if hit is not None:
+                self.n_cached += 1
+                return hit[0]
         t0 = _time.perf_counter()
         r = self.solver.check(*assumptions)
         self.solver_time += _time.perf_counter() - t0
         if r == z3.sat:
             self.n_sat += 1
-            return True
-        if r == z3.unsat:
+            res = True
+        elif r == z3.unsat:
             self.n_unsat += 1
-            return False
-        self.n_unknown += 1
-        raise Inconclusive("solver returned unknown: %s" % self.solver.reason_unknown())
+            res = False
+        else:
+            self.n_unknown += 1
+            raise Inconclusive("solver returned unknown: %s" % self.solver.reason_unknown())
+        if key is not None and len(self.qcache) < 400000:
+            # keep the terms alive: z3 ast ids are only unique while the term is referenced
+            self.qcache[key] = (res, assumptions)
+        return res
 
     def feasible(self, e, vs):
         return self._check(self._slice(vs) + [e])
@@ -1104,7 +1119,7 @@ class Explorer:
         sl = self._slice(x.vs)
         lo, hi = x.lo, x.hi
         # find some feasible value first
-        if not self._check(sl):
+        if not self._check(sl, need_model=True):
             raise EngineError("path condition unsatisfiable in min_value")
         m = self.solver.model()
         v0 = m.eval(x.e, model_completion=True).as_signed_long()
@@ -1176,7 +1191,7 @@ class Explorer:
 
     def _violation(self, oracle, ne, vs, info):
         full = list(self.pc) + ([ne] if ne is not None else [])
-        if not self._check(full):
+        if not self._check(full, need_model=True):
             raise EngineError("sliced query sat but full path condition unsat")
         m = self.solver.model()
         values = self.model_values(m)
@@ -1232,7 +1247,7 @@ class Explorer:
         """some model of the current path condition (for samples / cross validation)"""
         if self.concrete:
             return dict(self.vars)
-        if not self._check(list(self.pc)):
+        if not self._check(list(self.pc), need_model=True):
             raise EngineError("path condition unsatisfiable at path end")
         return self.model_values(self.solver.model())
 
